@@ -624,6 +624,9 @@ class Interp:
                 return self.truth(S(r) != 0) if contains_sym(r) else r != 0
             return True
         if isinstance(v, Kind):
+            h = getattr(v, "_pyvc_truth", None)  # opt-in: a kind-abstract value that knows its Python truth value (-> bool, may fork the path)
+            if h is not None:
+                return h(self)
             raise OutOfSubset("truth value of kind-abstract value")
         return bool(v)
 
@@ -691,7 +694,19 @@ class Interp:
         if spec is None:
             # concrete unrolling (bounded by the decision limit)
             n = 0
-            while self.truth(self.eval(node.test, env)):
+            nsym = 0
+            while True:
+                tv = self.eval(node.test, env)
+                if not isinstance(tv, (bool, int, float, str, type(None))):
+                    # a test that is not a concrete Python value forks the path at every unrolling: without a loop contract such a
+                    # loop is not decidable by unrolling (found with seeded/C17_I: an added path-compression loop made the
+                    # interpreter unroll a symbolic walk with ever-growing store terms, the check never returned)
+                    nsym += 1
+                    if nsym > 6:
+                        raise OutOfSubset("while loop with a symbolic condition and no loop contract (unrolled 6 times)")
+                if not self.truth(tv):
+                    self.exec_block(node.orelse, env)
+                    break
                 n += 1
                 if n > 200:
                     raise OutOfSubset("while loop without invariant unrolled > 200 times")
@@ -701,8 +716,6 @@ class Interp:
                     break
                 except ContinueSig:
                     continue
-            else:
-                self.exec_block(node.orelse, env)
             return
         self.symbolic_loop(node, env, spec, kind="while")
 
@@ -1599,6 +1612,14 @@ class Interp:
     def call(self, f, args, kwargs, node=None):
         reg = self.reg
         if isinstance(f, Closure):
+            # opt-in: a NESTED helper (def inside the function under verification) used through a stated contract,
+            # keyed by its name: reg.closure_models[name] = handler(interp, closure, args, kwargs) -> value | NotImplemented
+            cm = getattr(reg, "closure_models", None)
+            h = (cm.get(f.name) or cm.get("*")) if cm and f.real is None else None  # "*": handler decides by WHAT the helper does
+            if h is not None:
+                r = h(self, f, args, kwargs)
+                if r is not NotImplemented:
+                    return r
             return self.call_closure(f, args, kwargs)
         if isinstance(f, BoundMethod):
             return self.call(f.func, [f.obj] + list(args), kwargs, node)
